@@ -837,6 +837,14 @@ impl<Front: SocketHandler + std::fmt::Debug, L: ListenerHandler + L7ListenerHand
             "mux_ready_exit",
             &[("front", self.frontend_token.0 as i64)],
             &[
+                (
+                    "peer",
+                    self.frontend
+                        .socket()
+                        .peer_addr()
+                        .map(|a| a.to_string())
+                        .unwrap_or_default(),
+                ),
                 ("front", front),
                 ("backs", backs.join(";")),
                 ("streams", streams.join(";")),
